@@ -246,6 +246,9 @@ where
         self.family
             .clear_thread_instance_if_last_ref(self.origin, &self.inner);
 
+        #[cfg(folo_verif)]
+        crate::__verif::point("ref_sync/drop/after-last-ref-check");
+
         // If so, `self.inner` is now the last reference to the origin thread's instance of T
         // and this instance will be dropped once this function returns and drops the last `Arc<T>`.
     }
